@@ -85,6 +85,8 @@ class Ctx:
         """post value of a pool scalar field by name"""
         idx = self.ex.field_index(name)
         v = S.heap.fields[idx]
+        if not hasattr(v, "v"):
+            raise mirpool.Unsupported(f"pool field {name} was assigned a value the executor does not model ({getattr(v, 'why', v.kind)})")
         return v.v
 
 
@@ -155,6 +157,15 @@ def obligations(ex, which):
             return ver[0]
         per_path("the bucket-limit and duplicate-nullifier tests (any read of the bucket map or nullifier index) happen only after a successful verification",
                  order)
+
+        def in_order(S, ret, nows, ver):
+            has_ev = lambda kind, what=None: z3.BoolVal(any(e[0] == kind and (what is None or e[1] == what) for e in S.events))
+            return z3.And(has_ev("call", "parse_metadata") == ctx.c1,
+                          has_ev("call", "is_dummy") == z3.And(ctx.c1, ctx.c2),
+                          has_ev("now") == z3.And(ctx.c1, ctx.c2, ctx.c3),
+                          has_ev("verify") == ctx.reach_verify(ctx.t_star))
+        per_path("the rules are evaluated in the documented order: metadata is parsed iff the pool is not full, the dummy test runs iff metadata parsed, the budget stage "
+                 "iff the key is not the dummy sentinel, the verifier iff budget remains (so a push is rejected by the FIRST rule it fails)", in_order)
 
         def admitted(S, ret, nows, ver):
             ni, nik = ctx.pre["ni"], ctx.pre["nik"]
